@@ -350,6 +350,27 @@ def gen_lot(rng):
     return Xact([p1, Post('Assets:Bank')])
 
 
+def gen_virtual_lot(rng, elide=True):
+    """a (virtual) - not balancing - sale of a lot whose {price} differs from its @ cost, beside ordinary postings:
+    its gain/loss is no business of the transaction's balance, nor of an elided amount"""
+    units = rng.randrange(1, 50)
+    lotp = F(rng.randrange(100, 9999), 100)
+    sell = lotp + F(rng.choice([1, -1, 5, 250, -300, 1000]), rng.choice([1, 100, 1000]))
+    if sell <= 0:
+        sell = lotp + 1
+    kind = 'V'
+    p1 = Post(acct_of(rng, kind), kind, Amt(rng.choice([-1, 1]) * units, 0, 'AAA'), ('u', Amt(sell, 3, '$')), Amt(lotp, 2, '$'))
+    a = Amt.rand(rng, '$')
+    posts = [Post(acct_of(rng, 'R'), 'R', a), p1]
+    if elide or kind != 'V':
+        posts.append(Post('Null:' + acct_of(rng, 'R'), 'R', None))
+    else:
+        posts.append(Post(acct_of(rng, 'R'), 'R', a.neg()))
+    if rng.random() < 0.5:
+        rng.shuffle(posts)
+    return Xact(posts)
+
+
 def add_null(rng, x):
     """replace one must-balance cost-free posting's amount by an elided one (keeps it balanced)"""
     cands = [i for i, p in enumerate(x.posts) if p.must_balance() and p.amt is not None and p.cost is None and p.lot is None]
